@@ -65,7 +65,7 @@ def run(ctx):
     common.proof_side(ctx, THEOREMS, modules=["QProps.C10", "QProps.C09"])
     drv = common.Driver()
     rng = ctx.rng
-    n = 140 if ctx.tier == "quick" else 3000
+    n = 350 if ctx.tier == "quick" else 3000
     for i in range(n):
         if ctx.left() < 25:
             break
